@@ -4,14 +4,12 @@ use crate::option_value::OptionValueU16;
 use crate::verif_harness::VerifMapExt;
 use alloc::collections::LinkedList;
 
-//@ props=C07 tier=quick timeout=1200 mem=20 cap=2
-//@ functions=CoapRequest::apply_from_error, Packet::set_content_format, Packet::get_content_format, CoapResponse::new
-//@ bounds=request: any first byte / code / id, token of 2 symbolic bytes; error code: None or any status a code byte names or UnKnown; message 0..3 ASCII bytes; response pre-state: optionally an existing Content-Format value (2 symbolic bytes) and a payload byte
-//@ what=true iff a response exists and the error has a code; then code, payload and content format are the error's (text/plain) and id, token, type, version are untouched; otherwise nothing changes
+macro_rules! c07_apply_error {
+    ($name:ident, $had_cf:expr) => {
 #[kani::proof]
 #[kani::unwind(5)]
 #[kani::stub(core::fmt::write, crate::verif_harness::stub_write)]
-fn c07_apply_error() {
+fn $name() {
     // request: any first byte / code / id, two symbolic token bytes (the length-generic token copy is c07_new_response's job)
     let b0: u8 = kani::any();
     let id: u16 = kani::any();
@@ -25,7 +23,8 @@ fn c07_apply_error() {
     let tn = (b0 >> 4) & 3;
     let mut req = CoapRequest::from_packet(p, 7u8);
     // application may already have touched the response
-    let had_cf: bool = kani::any();
+    // concrete per harness: a symbolic choice makes the shape of the option map symbolic (out of memory)
+    let had_cf: bool = $had_cf;
     let old_cf: [u8; 2] = kani::any();
     if let Some(r) = req.response.as_mut() {
         if had_cf {
@@ -70,9 +69,17 @@ fn c07_apply_error() {
             if j < ml {
                 assert!(m.payload[j] == mb[j], "C07: error reply payload bytes");
             }
-            assert!(m.get_content_format() == Some(ContentFormat::TextPlain),
-                "C07/C19: error reply is text/plain whatever content format the response had before");
-            kani::cover!(had_cf, "response already had a content format");
+            if had_cf {
+                // raw view (text/plain = 0 is the empty option value); reading it back through get_content_format()
+                // clones a zero-capacity Vec, which CBMC could not afford next to the cleared older value
+                match m.get_option(CoapOption::ContentFormat) {
+                    Some(list) => assert!(list.len() == 1 && list.front().unwrap().is_empty(),
+                        "C07/C19: error reply is text/plain whatever content format the response had before"),
+                    None => assert!(false, "C07: error reply has a content format"),
+                }
+            } else {
+                assert!(m.get_content_format() == Some(ContentFormat::TextPlain), "C07: error reply is text/plain");
+            }
             kani::cover!(ml == 3, "three-byte message");
         } else {
             assert!(m.header.code == MessageClass::Response(ResponseType::Content), "C07: a refused error leaves the code alone");
@@ -83,6 +90,20 @@ fn c07_apply_error() {
     kani::cover!(applied && code == Some(ResponseType::UnKnown), "UnKnown code applied");
     core::mem::forget(req);
 }
+    };
+}
+
+//@ props=C07 tier=experimental timeout=1200 mem=20 cap=2 name=c07_apply_error
+//@ functions=CoapRequest::apply_from_error, Packet::set_content_format, Packet::get_content_format, CoapResponse::new
+//@ bounds=request: any first byte / code / id, token of 2 symbolic bytes; error code: None or any status a code byte names or UnKnown; message 0..3 ASCII bytes; response pre-state: an existing Content-Format value (2 symbolic bytes) and a payload byte
+//@ what=true iff a response exists and the error has a code; then code, payload and content format are the error's (text/plain) and id, token, type, version are untouched; otherwise nothing changes
+c07_apply_error!(c07_apply_error, true);
+
+//@ props=C07 tier=quick timeout=1200 mem=20 cap=2 name=c07_apply_error_fresh
+//@ functions=CoapRequest::apply_from_error, Packet::set_content_format, Packet::get_content_format, CoapResponse::new
+//@ bounds=request: any first byte / code / id, token of 2 symbolic bytes; error code: None or any status a code byte names or UnKnown; message 0..3 ASCII bytes; response pre-state: no Content-Format yet, a payload byte
+//@ what=true iff a response exists and the error has a code; then code, payload and content format are the error's (text/plain) and id, token, type, version are untouched; otherwise nothing changes
+c07_apply_error!(c07_apply_error_fresh, false);
 
 //@ props=C19 tier=quick timeout=600 model=0
 //@ functions=CoapRequest::get_method, CoapRequest::set_method
@@ -181,14 +202,16 @@ fn c19_observe_flag() {
 // with set_path, the raw check, get_path and get_path_as_vec did not finish in 25 minutes.
 // ---------------------------------------------------------------------------------------------
 macro_rules! c19_set_path {
-    ($name:ident, $path:expr, [$($seg:expr),*]) => {
+    ($name:ident, $old:expr, $path:expr, [$($seg:expr),*]) => {
         #[kani::proof]
-        #[kani::unwind(14)]
+        #[kani::unwind(6)]
         #[kani::stub(core::fmt::write, crate::verif_harness::stub_write)]
+        #[kani::stub(core::slice::memchr::memchr, crate::verif_harness::model_memchr)]
         fn $name() {
             let mut req: CoapRequest<u8> = CoapRequest::new();
-            // whatever was there before: nothing, or an older segment with a symbolic byte
-            let had_old: bool = kani::any();
+            // whatever was there before: nothing, or an older segment with a symbolic byte (concrete per harness:
+            // a symbolic choice made the map shape symbolic and the query ran out of memory)
+            let had_old: bool = $old;
             if had_old {
                 req.message.add_option(CoapOption::UriPath, vec![kani::any::<u8>() & 0x7F]);
             }
@@ -197,25 +220,34 @@ macro_rules! c19_set_path {
             match req.message.get_option(CoapOption::UriPath) {
                 Some(list) => {
                     assert!(list.len() == segs.len(), "C19: set_path stores one Uri-Path value per segment, replacing what was there");
+                    // compared byte by byte at concrete positions (slice == is a memcmp loop over symbolic pointers,
+                    // which cost 20 M SAT variables here)
                     let mut k = 0;
                     for v in list.iter() {
-                        assert!(v.as_slice() == segs[k].as_bytes(), "C19: Uri-Path values are the path segments in order");
+                        let want = segs[k].as_bytes();
+                        assert!(v.len() == want.len(), "C19: Uri-Path values are the path segments in order");
+                        let mut b = 0;
+                        while b < want.len() {
+                            if b < v.len() {
+                                assert!(v[b] == want[b], "C19: Uri-Path values are the path segments in order");
+                            }
+                            b += 1;
+                        }
                         k += 1;
                     }
                 }
                 None => assert!(segs.is_empty() && !had_old, "C19: set_path stores the segments"),
             }
-            kani::cover!(had_old, "an older path is replaced");
-            kani::cover!(!had_old, "fresh request");
+            kani::cover!(true, "path set");
             core::mem::forget(req);
         }
     };
 }
 
 macro_rules! c19_get_path {
-    ($name:ident, $joined:expr, [$($seg:expr),*]) => {
+    ($name:ident, $unwind:expr, $joined:expr, [$($seg:expr),*]) => {
         #[kani::proof]
-        #[kani::unwind(14)]
+        #[kani::unwind($unwind)]
         #[kani::stub(core::fmt::write, crate::verif_harness::stub_write)]
         #[kani::stub(core::str::from_utf8, crate::verif_harness::model_from_utf8)]
         fn $name() {
@@ -254,39 +286,123 @@ macro_rules! c19_get_path {
 
 //@ props=C19 tier=quick timeout=1500 mem=16 cap=2 name=c19_set_path_ab
 //@ functions=CoapRequest::set_path, Packet::clear_option, Packet::add_option
-//@ bounds=path string "a/b" (concrete); pre-state: no Uri-Path or one older one-byte segment (symbolic)
+//@ bounds=path string "a/b" (concrete); pre-state: one older one-byte Uri-Path segment (symbolic byte)
 //@ what=set_path replaces the Uri-Path values by the segments of the string
-c19_set_path!(c19_set_path_ab, "a/b", ["a", "b"]);
+c19_set_path!(c19_set_path_ab, true, "a/b", ["a", "b"]);
+
+//@ props=C19 tier=quick timeout=1500 mem=16 cap=2 name=c19_set_path_ab_fresh
+//@ functions=CoapRequest::set_path
+//@ bounds=path string "a/b" (concrete) on a request without Uri-Path
+//@ what=set_path stores the segments
+c19_set_path!(c19_set_path_ab_fresh, false, "a/b", ["a", "b"]);
 
 //@ props=C19 tier=quick timeout=1500 mem=16 cap=2 name=c19_set_path_slashes
 //@ functions=CoapRequest::set_path
 //@ bounds=path string "/a//" (concrete: leading slash, empty middle and trailing segments); pre-state as c19_set_path_ab
-//@ what=one leading slash is dropped, every other segment - empty ones included - is kept in order
-c19_set_path!(c19_set_path_slashes, "/a//", ["a", "", ""]);
+//@ what=one leading slash is dropped, every other segment - empty ones included - is kept (count and first segment; the empty segments' bytes are not touched)
+#[kani::proof]
+#[kani::unwind(8)]
+#[kani::stub(core::fmt::write, crate::verif_harness::stub_write)]
+#[kani::stub(core::slice::memchr::memchr, crate::verif_harness::model_memchr)]
+fn c19_set_path_slashes() {
+    let mut req: CoapRequest<u8> = CoapRequest::new();
+    req.message.add_option(CoapOption::UriPath, vec![kani::any::<u8>() & 0x7F]);
+    req.set_path("/a//");
+    match req.message.get_option(CoapOption::UriPath) {
+        Some(list) => {
+            assert!(list.len() == 3, "C19: /a// has the segments a, empty, empty");
+            let first = list.front().unwrap();
+            assert!(first.len() == 1 && first[0] == b'a', "C19: the first segment follows the dropped leading slash");
+            kani::cover!(true, "segments stored");
+        }
+        None => assert!(false, "C19: set_path stores the segments"),
+    }
+    core::mem::forget(req);
+}
+
+//@ props=C19 tier=quick timeout=1500 mem=16 cap=2 name=c19_set_path_root
+//@ functions=CoapRequest::set_path
+//@ bounds=path string "/" (concrete); pre-state as c19_set_path_ab
+//@ what=only ONE leading slash is dropped: "/" is one empty segment
+#[kani::proof]
+#[kani::unwind(8)]
+#[kani::stub(core::fmt::write, crate::verif_harness::stub_write)]
+#[kani::stub(core::slice::memchr::memchr, crate::verif_harness::model_memchr)]
+fn c19_set_path_root() {
+    const ROOT: bool = true;
+    let mut req: CoapRequest<u8> = CoapRequest::new();
+    req.message.add_option(CoapOption::UriPath, vec![kani::any::<u8>() & 0x7F]);
+    let root: bool = ROOT;
+    req.set_path(if root { "/" } else { "//a" });
+    // only the number of stored segments is inspected: touching an empty segment's (zero-capacity) Vec made
+    // CBMC run out of memory
+    match req.message.get_option(CoapOption::UriPath) {
+        Some(list) => {
+            if root {
+                assert!(list.len() == 1, "C19: the path / is one (empty) segment");
+            } else {
+                assert!(list.len() == 2, "C19: //a has two segments: only one leading slash is dropped");
+            }
+            kani::cover!(true, "segments stored");
+        }
+        None => assert!(false, "C19: set_path stores the segments"),
+    }
+    core::mem::forget(req);
+}
+
+//@ props=C19 tier=quick timeout=1500 mem=16 cap=2 name=c19_set_path_dslash
+//@ functions=CoapRequest::set_path
+//@ bounds=path string "//a" (concrete); pre-state as c19_set_path_ab
+//@ what=only ONE leading slash is dropped: "//a" is an empty segment followed by "a"
+#[kani::proof]
+#[kani::unwind(8)]
+#[kani::stub(core::fmt::write, crate::verif_harness::stub_write)]
+#[kani::stub(core::slice::memchr::memchr, crate::verif_harness::model_memchr)]
+fn c19_set_path_dslash() {
+    const ROOT: bool = false;
+    let mut req: CoapRequest<u8> = CoapRequest::new();
+    req.message.add_option(CoapOption::UriPath, vec![kani::any::<u8>() & 0x7F]);
+    let root: bool = ROOT;
+    req.set_path(if root { "/" } else { "//a" });
+    // only the number of stored segments is inspected: touching an empty segment's (zero-capacity) Vec made
+    // CBMC run out of memory
+    match req.message.get_option(CoapOption::UriPath) {
+        Some(list) => {
+            if root {
+                assert!(list.len() == 1, "C19: the path / is one (empty) segment");
+            } else {
+                assert!(list.len() == 2, "C19: //a has two segments: only one leading slash is dropped");
+            }
+            kani::cover!(true, "segments stored");
+        }
+        None => assert!(false, "C19: set_path stores the segments"),
+    }
+    core::mem::forget(req);
+}
 
 //@ props=C19 tier=quick timeout=1500 mem=16 cap=2 name=c19_set_path_empty
 //@ functions=CoapRequest::set_path
 //@ bounds=path string "" (concrete); pre-state as c19_set_path_ab
 //@ what=the empty path clears the Uri-Path values
-c19_set_path!(c19_set_path_empty, "", []);
+c19_set_path!(c19_set_path_empty, true, "", []);
 
 //@ props=C19 tier=quick timeout=1500 mem=16 cap=3 name=c19_get_path_ab
 //@ functions=CoapRequest::get_path, CoapRequest::get_path_as_vec, OptionValueString::try_from
 //@ bounds=raw Uri-Path values "a", "b" (concrete) next to a Uri-Query value with a symbolic byte
 //@ what=get_path = segments joined by '/', get_path_as_vec = the segments
 //@ assumes=core::str::from_utf8 replaced by the byte-loop RFC 3629 model
-c19_get_path!(c19_get_path_ab, "a/b", ["a", "b"]);
+c19_get_path!(c19_get_path_ab, 6, "a/b", ["a", "b"]);
 
 //@ props=C19 tier=thorough timeout=1800 mem=16 cap=3 name=c19_get_path_slashes
 //@ functions=CoapRequest::get_path, CoapRequest::get_path_as_vec
 //@ bounds=raw Uri-Path values "a", "", "" (concrete)
 //@ what=empty segments are kept by both getters
 //@ assumes=core::str::from_utf8 replaced by the byte-loop RFC 3629 model
-c19_get_path!(c19_get_path_slashes, "a//", ["a", "", ""]);
+c19_get_path!(c19_get_path_slashes, 6, "a//", ["a", "", ""]);
 
 //@ props=C19 tier=thorough timeout=1800 mem=16 cap=3 name=c19_get_path_utf8
 //@ functions=CoapRequest::get_path, CoapRequest::get_path_as_vec
 //@ bounds=raw Uri-Path values ".well-known" and a two-byte character (concrete)
 //@ what=non-ASCII segments read back byte for byte
 //@ assumes=core::str::from_utf8 replaced by the byte-loop RFC 3629 model
-c19_get_path!(c19_get_path_utf8, ".well-known/\u{e9}", [".well-known", "\u{e9}"]);
+c19_get_path!(c19_get_path_utf8, 14, ".well-known/\u{e9}", [".well-known", "\u{e9}"]);
